@@ -6,9 +6,10 @@
 #include <string.h>
 
 #include "common.h"
+#include "generated/cjet_config.h"
 
-enum vstate { ST_IDLE = 0, ST_OWNER, ST_FETCHER, ST_CALLER, ST_OWNER_INFLIGHT, ST_SELF, ST_BUFFERED, ST_RICH, ST_PARTIAL_MSG, ST_PARTIAL_HTTP, ST_CALLER_ORPHAN, NSTATES };
-static const char *const STN[] = {"idle", "owns-2-elements", "holds-2-fetches", "caller-in-flight", "owner-with-2-requests-in-flight", "caller-and-owner-of-same-request", "unsent-buffered-output", "everything-at-once", "mid-message", "mid-http-upgrade", "caller-in-flight-to-owner-that-removed-its-last-element"};
+enum vstate { ST_IDLE = 0, ST_OWNER, ST_FETCHER, ST_CALLER, ST_OWNER_INFLIGHT, ST_SELF, ST_BUFFERED, ST_RICH, ST_PARTIAL_MSG, ST_PARTIAL_HTTP, ST_CALLER_ORPHAN, ST_OWNER_FULL, NSTATES };
+static const char *const STN[] = {"idle", "owns-2-elements", "holds-2-fetches", "caller-in-flight", "owner-with-2-requests-in-flight", "caller-and-owner-of-same-request", "unsent-buffered-output", "everything-at-once", "mid-message", "mid-http-upgrade", "caller-in-flight-to-owner-that-removed-its-last-element", "owner-whose-write-buffer-is-full-so-that-a-request-could-not-be-forwarded"};
 enum ending { E_FIN = 0, E_RST_EPOLL, E_RST_READ, E_RST_WRITE, E_OVERSIZE, E_BADJSON, E_WS_UNMASKED, E_WS_CLOSE, E_WS_RSV, NENDINGS };
 static const char *const ENDN[] = {"client-FIN", "reset(epoll ERR|HUP)", "reset(seen by read)", "reset(seen by writev)", "oversize-length", "invalid-JSON", "ws-unmasked-frame", "ws-close-frame", "ws-reserved-bit"};
 enum moment { M_ALONE = 0, M_WITH_MSG_FIRST, M_WITH_MSG_AFTER, M_WITH_TIMER_FIRST, M_WITH_TIMER_AFTER, NMOMENTS };
@@ -282,7 +283,8 @@ static void run(void)
 	if ((st == ST_PARTIAL_MSG || st == ST_PARTIAL_HTTP) && en >= E_RST_WRITE) {
 		xp_end_run(); /* a half received message can only be ended by the client going away */
 	}
-	bool has_fetch = st == ST_FETCHER || st == ST_BUFFERED || st == ST_RICH;
+	bool owner_full = st == ST_OWNER_FULL;
+	bool has_fetch = st == ST_FETCHER || st == ST_BUFFERED || st == ST_RICH || owner_full;
 	bool owns = st == ST_OWNER || st == ST_RICH;
 	bool is_caller = st == ST_CALLER || st == ST_RICH;
 	bool owner_inflight = st == ST_OWNER_INFLIGHT || st == ST_RICH;
@@ -294,7 +296,7 @@ static void run(void)
 	if ((mo == M_WITH_TIMER_FIRST || mo == M_WITH_TIMER_AFTER) && !(is_caller || owner_inflight || self || orphan)) {
 		xp_end_run();
 	}
-	if (st == ST_BUFFERED && (en == E_RST_WRITE)) {
+	if ((st == ST_BUFFERED || owner_full) && (en == E_RST_WRITE)) {
 		xp_end_run(); /* window 0: writev would block, it cannot report the reset */
 	}
 	struct sim_opts o = {0};
@@ -334,7 +336,7 @@ static void run(void)
 		jx_sendf(V, "{\"id\":\"v2\",\"method\":\"add\",\"params\":{\"path\":\"vq\"}}");
 		jx_settle();
 	}
-	if (owner_inflight || self) {
+	if (owner_inflight || self || owner_full) {
 		jx_sendf(V, "{\"id\":\"v3\",\"method\":\"add\",\"params\":{\"path\":\"vm\"}}");
 		jx_settle();
 	}
@@ -376,6 +378,18 @@ static void run(void)
 			jx_sendf(B, "{\"id\":\"bc%d\",\"method\":\"change\",\"params\":{\"path\":\"b1\",\"value\":%d}}", i, 10 + i);
 			jx_settle();
 		}
+	}
+	if (owner_full) {
+		/* the victim stops reading; its write buffer fills with notifications; then a call to its method cannot be forwarded: the caller
+		 * is told at once - and the victim's later end must find nothing of that request */
+		sim_set_window(V, 0);
+		for (int i = 0; i < (int)(2 * CONFIG_MAX_WRITE_BUFFER_SIZE / 70) + 3; i++) {
+			jx_sendf(B, "{\"id\":\"bf%d\",\"method\":\"change\",\"params\":{\"path\":\"b1\",\"value\":\"%050d\"}}", i, i);
+			jx_settle();
+		}
+		jx_sendf(C, "{\"id\":\"c-full\",\"method\":\"call\",\"params\":{\"path\":\"vm\",\"args\":[9],\"timeout\":2}}");
+		jx_sendf(S, "{\"id\":\"s-full\",\"method\":\"call\",\"params\":{\"path\":\"vm\",\"args\":[9],\"timeout\":2}}");
+		jx_settle();
 	}
 	if (st == ST_PARTIAL_MSG) {
 		const char *msg = "{\"id\":\"pm\",\"method\":\"add\",\"params\":{\"path\":\"pm\",\"value\":12345}}";
@@ -492,7 +506,18 @@ static void run(void)
 			fail5("owned-element-not-removed", "a subscriber did not see exactly one remove for each element the victim owned");
 		}
 	}
-	if (owner_inflight || self) {
+	if (owner_full) {
+		/* exactly one answer each, an error: at once (the forward failed) or when the victim left */
+		jx_expire_all_timers(0);
+		bool e1 = false, e2 = false;
+		int n1 = count_resp(C, "c-full", 0, &e1), n2 = count_resp(S, "s-full", 0, &e2);
+		if (n1 != 1 || !e1 || n2 != 1 || !e2) {
+			char key[160];
+			snprintf(key, sizeof(key), "request-to-stalled-victim-not-answered-once:%d,%d", n1, n2);
+			fail5(key, "calls to the method of the victim, whose write buffer was full, must each be answered with exactly one error (caller C: %d answer(s), caller S: %d)", n1, n2);
+		}
+	}
+	if (owner_inflight || self || owner_full) {
 		if (count_notifs(S, "sf", "remove", "vm", fromS_end) != 1) {
 			fail5("owned-element-not-removed", "a subscriber did not see exactly one remove for the victim's method");
 		}
@@ -621,6 +646,6 @@ const struct driver drv_c05 = {
     .name = "c05",
     .property = "C05",
     .run = run,
-    .rule = "product of 11 victim protocol states (caller in flight to an owner that removed its last element meanwhile, idle, owning elements, holding fetches, caller in flight, owner with 2 requests in flight, caller and owner of the same request, unsent buffered output, all at once, mid message at every byte position, mid HTTP upgrade at every byte position) x 3 transports (tcp, unix socket, websocket) x 9 endings (FIN, reset seen by epoll / read / writev, oversize length, invalid JSON, ws unmasked frame, ws close frame, ws reserved bit) x {no further subscriber, a websocket subscriber that arrived after the victim} x 5 moments (alone; in the same harvested batch as a bystander's message or as the expiry of one of its requests, victim dispatched first / last); inapplicable combinations end at once; non-trivial = applicable combinations run to the end | section 1: 3 transports x failing allocation n = 1..40 while the daemon sets the new connection up (runs in which no allocation failed end at once) x 4 continuations (a new peer of the same kind connects, adds and leaves; a bystander with a request in flight leaves; a new subscriber fetches and unfetches; two peers connect, add and leave): the bystanders work as before, peer count, descriptors, timers and heap return, clean exit",
+    .rule = "product of 12 victim protocol states (owner that stopped reading with a full write buffer so that calls to its method could not be forwarded, caller in flight to an owner that removed its last element meanwhile, idle, owning elements, holding fetches, caller in flight, owner with 2 requests in flight, caller and owner of the same request, unsent buffered output, all at once, mid message at every byte position, mid HTTP upgrade at every byte position) x 3 transports (tcp, unix socket, websocket) x 9 endings (FIN, reset seen by epoll / read / writev, oversize length, invalid JSON, ws unmasked frame, ws close frame, ws reserved bit) x {no further subscriber, a websocket subscriber that arrived after the victim} x 5 moments (alone; in the same harvested batch as a bystander's message or as the expiry of one of its requests, victim dispatched first / last); inapplicable combinations end at once; non-trivial = applicable combinations run to the end | section 1: 3 transports x failing allocation n = 1..40 while the daemon sets the new connection up (runs in which no allocation failed end at once) x 4 continuations (a new peer of the same kind connects, adds and leaves; a bystander with a request in flight leaves; a new subscriber fetches and unfetches; two peers connect, add and leave): the bystanders work as before, peer count, descriptors, timers and heap return, clean exit",
     .assumptions = "heap is compared at the idle baseline after everybody left",
 };
